@@ -1146,3 +1146,28 @@ for _p in ('C06', 'C09'):
                          'instance remembers a run of consecutive leaves plus at most one more is an initial state; from each, every block that deletes '
                          'one remembered leaf or the remembered leaves of one aligned subtree, and its undo (subtrees of four and more leaves collapsing '
                          'next to remembered leaves, which 5-leaf forests do not have).')
+
+
+# --------------------------------------------------------------------------- C15: the cache algorithm at specification level
+def schedalg(name, tier, variant='ok', **kw):
+    q = tier == 'quick'
+    st = {'kind': 'spec_check', 'name': name, 'module': 'ScheduleAlg', 'spec': 'ASpec', 'view': 'AView',
+          'constants': {'MaxN': 6 if q else 7, 'MaxAdds': 3, 'MaxBlocks': 4, 'SVariant': '"%s"' % variant},
+          'invariants': ['CacheBound', 'CacheTrue', 'SoFarOK', 'FinalOK', 'Useful'], 'timeout': 1800 if q else 10800}
+    st.update(kw)
+    return st
+
+
+PLAN['C15']['stages'] = (lambda f: (lambda tier, seed: [
+    schedalg('schedalg_refines', tier),
+    schedalg('schedalg_ge', tier, 'ge', constants={'MaxN': 5, 'MaxAdds': 3, 'MaxBlocks': 4, 'SVariant': '"ge"'}),
+    schedalg('schedalg_room_neg', tier, 'le', constants={'MaxN': 5, 'MaxAdds': 3, 'MaxBlocks': 3, 'SVariant': '"le"'}, expect_violation=True, timeout=600),
+    schedalg('schedalg_height_neg', tier, 'noage', constants={'MaxN': 4, 'MaxAdds': 2, 'MaxBlocks': 4, 'SVariant': '"noage"'}, expect_violation=True, timeout=600),
+] + f(tier, seed)))(PLAN['C15']['stages'])
+PLAN['C15']['rule'] += (' Spec level: spec/ScheduleAlg.tla models the forward pass of GenerateCachingSchedule (a bounded cache of (slot, time to live) '
+                        'pairs: ageing at the start of a block, a pair whose time is up is filed under the block that created it, a new pair takes free '
+                        'room or replaces the first cached pair with a strictly greater time to live) over every recorded history in bounds, every '
+                        'memory limit and every order in which a block offers its pairs; TLC checks that the cache never exceeds the limit, that cached '
+                        'times are the true distances to the spending block, that the finished schedule satisfies SchedOK and is not empty when something '
+                        'could be kept; the variants with the room test off by one and with the creation block of a replaced pair kept are refuted, the '
+                        'variant replacing on equal times passes.')
